@@ -33,7 +33,9 @@ def projection(prop, d, pre):
     if prop == 'C08':
         return json.dumps(d['agent'][:3])
     if prop == 'C09':
-        return json.dumps(sorted(M.inventory(d).items()))
+        # what is there (deep multiset) and where the scenery stands: walls, exits, beacons, telepods and doors never move
+        scenery = [(p, M.obj_type(M.cell(d, p))) for p in M.positions(d) if M.obj_type(M.cell(d, p)) in ('Wall', 'Exit', 'Beacon', 'Telepod', 'Door')]
+        return json.dumps([sorted(M.inventory(d).items()), scenery])
     if prop == 'C10':
         cells = [(p, M.cell(d, p)) for p in M.positions(d) if M.obj_type(M.cell(pre, p)) in ('Door', 'Box') or M.obj_type(M.cell(d, p)) in ('Door', 'Box')]
         held = d['agent'][3] if d['agent'][3] != '_' and M.obj_type(d['agent'][3]) in ('Door', 'Box') else None
@@ -65,6 +67,8 @@ def strat(draw, prop, tier):
         st.tuples(st.just('hold'), obj | st.just('_')).map(list),
         st.tuples(st.just('mutate'), small, gen.obj_s(space, 1), small).map(list),
         st.tuples(st.just('mutate'), small, gen.obj_s(space, 1), small).map(list),
+        st.tuples(st.just('observe'), small).map(list),
+        st.tuples(st.just('observe'), small).map(list),
         st.tuples(st.just('draw'), st.sampled_from(['h', 'v']), small, small, small, obj).map(list),
     )
     # scripted openings (the initial world is known here, so positions are exact), followed by generated ops
@@ -200,7 +204,10 @@ def oracle_for(prop):
                         o = recolour(o, M.color_of(M.cell(d, p)))
                 if p == (d['agent'][0], d['agent'][1]) and M.blocks_movement(o):
                     continue
-                s.grid[Position(*p)] = objs.build_obj(o)
+                if (k + p[0] + p[1]) % 2:
+                    s.grid[Position(*p)] = objs.build_obj(o)
+                else:
+                    s.grid[(p[0], p[1])] = objs.build_obj(o)          # cells are addressed by positions or by plain (y, x) tuples
                 d['grid'][p[0]][p[1]] = o
             elif kind in ('pose', 'pose_special'):
                 if kind == 'pose':
@@ -215,6 +222,17 @@ def oracle_for(prop):
                 s.agent.position = Position(*p)
                 s.agent.orientation = objs.ori(hd)
                 d['agent'][0], d['agent'][1], d['agent'][2] = p[0], p[1], hd
+            elif kind == 'observe':
+                # the owner looks at the world (an occluding observation function; when the agent faces forward the view is made to fit
+                # the grid exactly, otherwise a small view): looking changes nothing
+                from vgv import obsutil
+                y0, x0, hd0 = d['agent'][0], d['agent'][1], d['agent'][2]
+                if hd0 == 'F' and op[1] % 2 == 0:
+                    area = [[-y0, h - 1 - y0], [-x0, w - 1 - x0]]
+                else:
+                    area = [[-2, 0], [-1, 1]]
+                name = ['raytracing', 'partially_occluded'][op[1] % 2] if area[0][1] == 0 else 'raytracing'
+                guarded(ctx, f'observation {name}', obsutil.observe, name, s, area)
             elif kind == 'mutate':
                 # an object already in the world is changed in place through its public attributes (box content, door status, colour)
                 sp = [q for q in special_cells(d) if M.obj_type(M.cell(d, q)) in ('Box', 'Door', 'Key', 'Telepod')]
@@ -290,5 +308,5 @@ def oracle_for(prop):
 def make_check(prop, quick=250, thorough=1200):
     return Check('edited_histories', oracle_for(prop), strategy=lambda tier: strat(prop, tier), examples={'quick': quick, 'thorough': thorough}, shards={'quick': 4, 'thorough': 16},
                  rule='one world x 5-16 ops: functional step, look-ahead (result dropped), in-place transition, copying transition, interleaved with user edits through the public '
-                      'API (grid[pos] = obj, design.draw_line_*, box content / door status / colour of an object in place, agent pose, held item), debug checks on or off: every result inside the model outcome set (projection of this property); states left behind never change',
-                 required=['edit_between_steps', 'peek_change_step', 'left_behind_then_inplace', 'op:draw', 'op:edit_special', 'op:pose_special', 'op:mutate', 'debug:False', 'debug:True'] + (['scripted:drawn_door_row', 'scripted:boxed_door'] if prop in ('C09', 'C10') else []))
+                      'API (grid[pos] = obj, design.draw_line_*, box content / door status / colour of an object in place, agent pose, held item; cells addressed by Position or by tuple) and with looks at the world through occluding observation functions (view fitted to the grid when the agent faces forward), debug checks on or off: every result inside the model outcome set (projection of this property); states left behind never change',
+                 required=['edit_between_steps', 'peek_change_step', 'left_behind_then_inplace', 'op:draw', 'op:edit_special', 'op:pose_special', 'op:mutate', 'op:observe', 'debug:False', 'debug:True'] + (['scripted:drawn_door_row', 'scripted:boxed_door'] if prop in ('C09', 'C10') else []))
